@@ -9,6 +9,7 @@ package main
 
 import (
 	"fmt"
+	"math"
 	"os"
 	"reflect"
 	"strconv"
@@ -26,6 +27,7 @@ var x03Scalar = map[int]reflect.Type{
 	1: reflect.TypeOf(false), 2: reflect.TypeOf(int(0)), 3: reflect.TypeOf(int8(0)), 4: reflect.TypeOf(int16(0)),
 	5: reflect.TypeOf(int32(0)), 6: reflect.TypeOf(int64(0)), 7: reflect.TypeOf(uint(0)), 8: reflect.TypeOf(uint8(0)),
 	9: reflect.TypeOf(uint16(0)), 10: reflect.TypeOf(uint32(0)), 11: reflect.TypeOf(uint64(0)),
+	13: reflect.TypeOf(float32(0)), 14: reflect.TypeOf(float64(0)),
 }
 var x03Iface = reflect.TypeOf((*interface{})(nil)).Elem()
 
@@ -88,6 +90,10 @@ func x03Build(v V) reflect.Value {
 			r.SetBool(v.L[2].Bool())
 		case k <= 6:
 			r.SetInt(v.L[2].I64())
+		case k == 13:
+			return reflect.ValueOf(math.Float32frombits(uint32(v.L[2].U64())))
+		case k == 14:
+			return reflect.ValueOf(math.Float64frombits(v.L[2].U64()))
 		default:
 			r.SetUint(v.L[2].U64())
 		}
@@ -165,7 +171,7 @@ func x03RenderType(t reflect.Type) string {
 	switch k := t.Kind(); {
 	case k == reflect.Interface && t.NumMethod() == 0:
 		return "[0]"
-	case k >= reflect.Bool && k <= reflect.Uint64:
+	case k >= reflect.Bool && k <= reflect.Uint64, k == reflect.Float32, k == reflect.Float64:
 		return L("1", Int(int(k)))
 	case k == reflect.String:
 		return "[2]"
@@ -204,6 +210,10 @@ func x03RenderValue(rv reflect.Value) string {
 		return L("1", Int(int(k)), I(rv.Int()))
 	case k >= reflect.Uint && k <= reflect.Uint64:
 		return L("1", Int(int(k)), strconv.FormatUint(rv.Uint(), 10))
+	case k == reflect.Float32:
+		return L("1", "13", strconv.FormatUint(uint64(math.Float32bits(rv.Interface().(float32))), 10))
+	case k == reflect.Float64:
+		return L("1", "14", strconv.FormatUint(math.Float64bits(rv.Float()), 10))
 	case k == reflect.String:
 		return L("2", Str(rv.String()))
 	case k == reflect.Slice:
@@ -263,11 +273,21 @@ func init() {
 
 // ---- generator: value trees as text
 
-var x03ScalarKinds = []int{1, 2, 3, 4, 5, 6, 7, 8, 9, 10, 11}
+var x03ScalarKinds = []int{1, 2, 3, 4, 5, 6, 7, 8, 9, 10, 11, 13, 14}
+
+// bit patterns of floats: zeros, ones, infinities, a quiet NaN, extremes, random finite values
+var x03F64 = []uint64{0, 1 << 63, 0x3ff0000000000000, 0xbff0000000000000, 0x7ff0000000000000, 0xfff0000000000000, 0x7ff8000000000001, 1, 0x7fefffffffffffff, 0x400921fb54442d18}
+var x03F32 = []uint64{0, 1 << 31, 0x3f800000, 0xbf800000, 0x7f800000, 0xff800000, 0x7fc00001, 1, 0x7f7fffff, 0x40490fdb}
 
 func x03ScalarVal(g *Gen, k int) string {
 	if k == 1 {
 		return L("1", "1", Int(g.R.Intn(2)))
+	}
+	if k == 13 {
+		return L("1", "13", strconv.FormatUint(x03F32[g.R.Intn(len(x03F32))], 10))
+	}
+	if k == 14 {
+		return L("1", "14", strconv.FormatUint(x03F64[g.R.Intn(len(x03F64))], 10))
 	}
 	bitsOf := map[int]uint{2: 64, 3: 8, 4: 16, 5: 32, 6: 64, 7: 64, 8: 8, 9: 16, 10: 32, 11: 64}
 	b := bitsOf[k]
